@@ -29,7 +29,7 @@ func (c06) Assumptions() []string {
 	}
 }
 func (c06) Probes() []string {
-	return []string{"probe/empty-write-first", "probe/empty-write-between", "probe/empty-write-consecutive", "probe/exact-multiple-then-empty", "probe/pending-with-batches", "probe/pending-no-batches", "probe/chain>=3", "probe/no-batch-at-all", "probe/row-groups>=3", "sweep/short-histories", "class/large"}
+	return []string{"probe/empty-write-first", "probe/empty-write-between", "probe/empty-write-consecutive", "probe/exact-multiple-then-empty", "probe/pending-with-batches", "probe/pending-no-batches", "probe/chain>=3", "probe/no-batch-at-all", "probe/row-groups>=3", "sweep/short-histories", "class/large", "class/many-row-groups"}
 }
 func (c06) Runs(tier string) int {
 	if tier == "thorough" {
@@ -40,10 +40,11 @@ func (c06) Runs(tier string) int {
 
 func c06Opts(tier string) core.HistOpts {
 	o := core.HistOpts{Shapes: allShapes, PageMin: 1, PageMax: 8, BigPagePct: 3, MinBatches: 0, MaxBatches: 5, MaxOps: 40,
-		EmptyWrites: true, PendingClose: true, Profile: core.Benign, LargePct: 1}
+		EmptyWrites: true, PendingClose: true, Profile: core.Benign, LargePct: 1, ManyPct: 1, ManyMax: 80}
 	if tier == "thorough" {
 		o.MaxOps = 120
 		o.MaxBatches = 6
+		o.ManyMax = 300
 	}
 	return o
 }
@@ -122,6 +123,9 @@ func (p c06) Run(runseed uint64, tier string, acc *Acc) []*core.Violation {
 	acc.Inc("shape/" + w.Shape)
 	if w.Large {
 		acc.Inc("class/large")
+	}
+	if w.Many {
+		acc.Inc("class/many-row-groups")
 	}
 	if acc.Runs%5000 == 1 && !w.Large {
 		acc.Sample(c, 3)
